@@ -628,6 +628,7 @@ func runC01(c *Ctx) {
 	m.ruleReadOnly(c)
 	m.ruleTreeAccessors(c)
 	m.ruleExtremeLeaf(c)
+	ruleEmptyAgreesLen(c, "stree", "Tree")
 	m.ruleSuccessorLeaf(c)
 	ruleFractionRange(c)
 	var yf []*ssa.Function
@@ -1184,6 +1185,7 @@ func runC04(c *Ctx) {
 		sm.rulePathComplete(c)
 	}
 	ruleOkForward(c, "omap", "stree")
+	ruleEmptyAgreesLen(c, "omap", "Map")
 	ruleIterSiblings(c)
 	if seek := P.Func("omap", "Iter", "Seek"); seek != nil {
 		cF := P.fieldByType("omap", "Iter", "c", "stree", "Cursor")
@@ -1346,7 +1348,25 @@ func (m *streeModel) ruleRelink(c *Ctx) {
 	})
 	if n == 0 {
 		c.undecided("R-RELINK", "stree.popMinRight", fn.Pos(), "no relinking store found")
+		return
 	}
+	// … and every way to the return re-attaches: no path leaves the removed node linked from its old place
+	isRelink := func(in ssa.Instruction) bool {
+		st, ok := in.(*ssa.Store)
+		if !ok {
+			return false
+		}
+		base, f := loadedField(st.Val)
+		if f == nil || !sameField(f, m.large) || base != goat {
+			return false
+		}
+		if fa, ok := st.Addr.(*ssa.FieldAddr); ok {
+			return fa.X != goat
+		}
+		return true
+	}
+	reach, wit := reachesWithout(c.P, firstInstr(fn), true, func(in ssa.Instruction) bool { _, r := in.(*ssa.Return); return r }, isRelink)
+	c.judge(!reach, "R-RELINK", "stree.popMinRight:every path re-attaches", fn.Pos(), "no return without the link to the removed node having been redirected", "the helper can return ("+wit+") without redirecting the link that pointed to the removed minimum: the node stays linked from its old place as well as from its new one (a cycle once it takes the deleted node's position)")
 }
 
 // ---- R-SIZE-PAIR: the element count changes by exactly one, together with a successful modification
@@ -2716,6 +2736,41 @@ func (m *streeModel) ruleTreeAccessors(c *Ctx) {
 		}
 		c.sawFn(fnName(fn))
 		c.judge(len(bad) == 0, "R-CURRENT-NODE", fnName(fn)+":reads the current node", fn.Pos(), "path[len(path)-1]", fmt.Sprintf("the method looks at %v, not at the node the cursor is on (the last element of the path): its answer describes another node", bad))
+	}
+	// ---- R-HAS-POLARITY: a Has… predicate of the cursor that looks at a child link answers "is there one": the
+	// link is compared with nil by != (or by == under a negation)
+	c.rule("R-HAS-POLARITY", 0, "HasLeft/HasRight compare the child link with nil by !=: true exactly when there is a child")
+	for _, name := range []string{"HasLeft", "HasRight"} {
+		fn := P.Func("stree", "Cursor", name)
+		if fn == nil {
+			continue
+		}
+		k := 0
+		allInstrs(fn, func(in ssa.Instruction) {
+			bo, ok := in.(*ssa.BinOp)
+			if !ok || (bo.Op != token.EQL && bo.Op != token.NEQ) {
+				return
+			}
+			x, y := bo.X, bo.Y
+			if isNilConst(x) {
+				x, y = y, x
+			}
+			if !isNilConst(y) {
+				return
+			}
+			if _, f := loadedField(x); f == nil || !(sameField(f, m.small) || sameField(f, m.large)) {
+				return
+			}
+			negated := false
+			for _, r := range referrersOf(bo) {
+				if u, ok := r.(*ssa.UnOp); ok && u.Op == token.NOT {
+					negated = true
+				}
+			}
+			k++
+			c.sawFn(fnName(fn))
+			c.judge((bo.Op == token.NEQ) != negated, "R-HAS-POLARITY", fmt.Sprintf("%s:child test #%d", fnName(fn), k), bo.Pos(), "child != nil", fmt.Sprintf("%s answers true when the child link IS nil and false when there is a child: the predicate is inverted (the move it announces does the opposite)", name))
+		})
 	}
 	// ---- R-CURSOR-EQUAL
 	if tc := P.Func("stree", "Tree", "Cursor"); tc != nil {
